@@ -130,6 +130,16 @@ def has_varvar(B, u, t):
   return False
 
 
+def tables_same_size(u, tab):
+  """Other tables of the universe with the same total number of values."""
+  n = sum(len(v) for v in tab.values())
+  cache = u.__dict__.setdefault("_by_size", {})
+  if n not in cache:
+    cache[n] = [(t, tm) for t, tm in u.tables
+                if sum(len(v) for v in t.values()) == n]
+  return [(t, tm) for t, tm in cache[n] if t is not tab]
+
+
 def explore(ctx, nvars, nvals, plan, tag, simplify_cap=None):
   """plan: list of (max_arity, cap or None) for depth 1, 2, ..."""
   from pytype.pytd import booleq as B
@@ -227,9 +237,19 @@ def explore(ctx, nvars, nvals, plan, tag, simplify_cap=None):
       continue
     mt = mask(t)
     eqs = None
+    # Every other term is simplified against ONE dict object that is refilled
+    # in place for each table (what Solver.solve does with its assignments);
+    # the others get a fresh dict per call.  The answer may depend on the
+    # table's contents only.
+    shared = {} if (ti // ctx.nshards) % 2 == 0 else None
     for tab, tm in u.tables:
       try:
-        r = t.simplify({k: set(v) for k, v in tab.items()})
+        if shared is not None:
+          shared.clear()
+          shared.update({k: set(v) for k, v in tab.items()})
+          r = t.simplify(shared)
+        else:
+          r = t.simplify({k: set(v) for k, v in tab.items()})
       except Violation:
         raise
       except Exception as e:  # pylint: disable=broad-except
@@ -356,6 +376,20 @@ def random_deep(ctx, n, nvars, nvals, tag):
       rs = r.simplify({k: set(v) for k, v in tab.items()})
       case = {"universe": [nvars, nvals], "term": repr(r),
               "table": {k: sorted(v) for k, v in tab.items()}}
+      # the same term object and the same dict object, contents replaced
+      inplace = {k: set(v) for k, v in tab.items()}
+      rs1 = r.simplify(inplace)
+      for other_tab, other_tm in tables_same_size(u, tab)[:3]:
+        inplace.clear()
+        inplace.update({k: set(v) for k, v in other_tab.items()})
+        rs2 = r.simplify(inplace)
+        ctx.check((mask(rs2) & other_tm) == (exp & other_tm),
+                  "simplify-not-equivalent",
+                  "%r.simplify(table refilled in place with %r) -> %r" % (
+                      r, other_tab, rs2),
+                  dict(case, refilled_with={k: sorted(v) for k, v in
+                                            other_tab.items()}))
+      del rs1
       ctx.check((mask(rs) & tm) == (exp & tm), "simplify-not-equivalent",
                 "%r.simplify(%r) -> %r" % (r, tab, rs), case)
       ctx.check(shape_ok(B, rs), "simplify-shape",
